@@ -16,13 +16,19 @@ DELIMS = {"tab": ("\t", "DTab"), "space": (" ", "DSpace"), "comma": (",", "DComm
 CH2D = {ch: coq for ch, coq in DELIMS.values()}
 
 TRUSTED = [
-    "translator/c20.py (Alignment members, the integer expressions of _set_relative_position, decorator + parameter "
-    "list of load_cropped_and_aligned_image, the separator tuple of load_image; fails closed on any other shape)",
-    "correspondence harness: harness/props/c20.py generators and text tokeniser, harness/drivers/c20.py",
+    "translator/c20.py (Alignment members; the integer expressions of _set_relative_position from an if/elif chain or "
+    "a match statement; decorator + parameter list of load_cropped_and_aligned_image; the separator tuple of load_image; "
+    "everything that could keep state between two calls in loader.py / image.py / the two loading models: caching "
+    "decorators, module-level containers mutated in functions, mutable defaults, function attributes; the call sites of "
+    "the two loading models; fails closed on any other shape)",
+    "correspondence harness: harness/props/c20.py generators and text tokeniser, harness/drivers/c20.py (independent "
+    "writers numpy.save / numpy.savetxt / astropy writeto / PIL / openpyxl; os.utime to give a rewritten file a chosen, "
+    "different modification time)",
     "modelled, not verified: np.intersect1d on ascending ranges = ordered intersection, numpy basic slicing and block "
-    "assignment, int(a / 2) = truncation toward zero (exact for |a| < 2^53), functools.lru_cache = LRU map keyed by the "
-    "argument list, np.loadtxt field splitting / blank stripping / float(); np.save, astropy.io.fits, pandas and "
-    "csv.Sniffer are exercised (round trips) but not modelled",
+    "assignment, int(a / 2) = truncation toward zero (exact for |a| < 2^53), np.loadtxt field splitting / blank stripping "
+    "/ float(); functools.lru_cache = LRU map keyed by the argument list (only used when the decorator is present: the "
+    "failing-input search and C20_memo_on_arguments_goes_stale); np.save/np.load, astropy.io.fits, PIL, pandas readers "
+    "and csv.Sniffer are exercised (round trips, histories) but not modelled",
 ]
 
 # ------------------------------------------------------------------------------------------ emitters
@@ -475,21 +481,32 @@ def gen_roundtrip_cases(ctx: Ctx):
                     c["scale"] = r.choice([1, 4]) if fmt != "fitstable" else 1
                 if c.get("scale", 1) == 4:          # quarters: keep value / 4 exactly representable
                     c["table"] = rt_table(r, ny, nx, specials=(0, 1, -1, 10 ** 6, 2 ** 31 + 1, 2 ** 50 + 1))
-                    if fmt == "fits":
-                        c["hdus"] = r.choice(["primary", "primary", "ext1", "two"])
-                    if c["scale"] == 1 and fmt in ("npy", "fits") and r.random() < 0.4:
-                        dt = r.choice(["int64", "int32", "int16", "uint16", "uint8", "float32", ">f8", ">i4"])
-                        lo, hi = {"int64": (-2 ** 40, 2 ** 40), "int32": (-2 ** 31, 2 ** 31 - 1), "int16": (-2 ** 15, 2 ** 15 - 1),
-                                  "uint16": (0, 2 ** 16 - 1), "uint8": (0, 255), "float32": (-2 ** 24, 2 ** 24),
-                                  ">f8": (-2 ** 40, 2 ** 40), ">i4": (-2 ** 31, 2 ** 31 - 1)}[dt]
-                        c["dtype"] = dt
-                        c["table"] = rt_table(r, ny, nx, lo, hi, specials=(lo, hi, 0))
+                if fmt == "fits":
+                    c["hdus"] = r.choice(["primary", "primary", "ext1", "two"])
+                if c.get("scale", 1) == 1 and fmt in ("npy", "fits") and r.random() < 0.5:
+                    dt = r.choice(["int64", "int32", "int16", "uint16", "uint8", "float32", ">f8", ">i4"])
+                    lo, hi = {"int64": (-2 ** 40, 2 ** 40), "int32": (-2 ** 31, 2 ** 31 - 1), "int16": (-2 ** 15, 2 ** 15 - 1),
+                              "uint16": (0, 2 ** 16 - 1), "uint8": (0, 255), "float32": (-2 ** 24, 2 ** 24),
+                              ">f8": (-2 ** 40, 2 ** 40), ">i4": (-2 ** 31, 2 ** 31 - 1)}[dt]
+                    c["dtype"] = dt
+                    c["table"] = rt_table(r, ny, nx, lo, hi, specials=(lo, hi, 0))
                 cases.append(c)
     # 8-bit grey-level pictures through PIL (lossless formats): row 0 of the array is the first row of the picture
     for fmt in ("png", "bmp", "tiff", "tif"):
         for (ny, nx) in [(1, 1), (2, 3), (5, 2)][: ctx.budget(2, 3)]:
             cases.append(dict(kind="roundtrip", fmt=fmt, delim=None, loader="image", table=rt_table(r, ny, nx, 0, 255, (0, 255)),
                               upper=r.random() < 0.2))
+    for fmt in ("jpg", "jpeg"):            # lossy format: uniform grey pictures only (exact at quality 100)
+        v = r.randint(0, 255)
+        ny, nx = r.choice([(1, 1), (3, 5), (9, 17)])
+        cases.append(dict(kind="roundtrip", fmt=fmt, delim=None, loader="image", table=[[v] * nx for _ in range(ny)]))
+    for hdus in ("primary", "ext1", "two"):
+        for dt in (None, "int16", "uint16", "float32"):
+            lo, hi = {None: (-999, 999), "int16": (-2 ** 15, 2 ** 15 - 1), "uint16": (0, 2 ** 16 - 1), "float32": (-2 ** 24, 2 ** 24)}[dt]
+            c = dict(kind="roundtrip", fmt="fits", delim=None, loader="image", hdus=hdus, table=rt_table(r, 2, 3, lo, hi, (lo, hi, 0)))
+            if dt:
+                c["dtype"] = dt
+            cases.append(c)
     for hdr in (False, True):
         cases.append(dict(kind="roundtrip", fmt="xlsx", delim=None, loader="table", header=hdr, table=rt_table(r, 3, 2, -999, 999, (0,)),
                           scale=4))
@@ -949,19 +966,32 @@ META = dict(
         "contents, detector shapes, offsets and the five keywords, out[i][j] = in[i-py][j-px] where the input reaches and "
         "0 elsewhere, refuses exactly the non-overlapping inputs (and the smaller ones when disallowed); the keyword "
         "expressions and keyword strings are regenerated from the source on every run and proved equal to their "
-        "documented meaning; (2) the lru_cache history model: the full freshness statement is REFUTED with a proved "
-        "witness (key ignores file content), the restriction 'no file rewritten after it was loaded' is proved for all "
-        "histories and cache sizes; (3) first-success delimiter detection reads back every rectangular table written "
-        "with any tried separator, for the separator order regenerated from the source. The models are tied to the code "
-        "by evaluating them inside Coq against the real fit_into_array, load_cropped_and_aligned_image, the load_image / "
-        "load_charge models writing into photon / charge, and load_image on text files; NPY/FITS/text round trips through "
-        "load_image and load_table are judged against 'same shape and values' (that part is testing, not proof)."),
+        "documented meaning; (2) freshness IN FULL (after the repair of C20-F15): nothing in the loading code keeps "
+        "content between two calls (regenerated: no memoisation, no caching decorator, no mutated module-level "
+        "container, no mutable default, no function attribute), hence in EVERY history of file writes and loads — "
+        "through the placing loader and the direct loaders — every load returns the specified placement of what the file "
+        "holds at that moment; memoising on the arguments, with any key fields and any cache size, is proved to go "
+        "stale; the two loading models' call sites (regenerated) pass the detector's (rows, cols), position = (y, x), "
+        "align, and scale by time_step / time_scale (* multiplier); (3) delimiter detection for the regenerated "
+        "separator list: every rectangular table written with a tried separator is read back; the decision never "
+        "changes what is read (any accepted text is read as the numbers of its lines), the first accepting separator "
+        "decides and the order of the list is irrelevant; a separator accepts a line only if it occurs columns-1 times "
+        "and all other separator characters are blanks; a table written with a regular gap (e.g. ', ') is accepted iff "
+        "some separator reads the gap. The models are tied to the code by evaluating them inside Coq against the real "
+        "fit_into_array, load_cropped_and_aligned_image (npy / fits / text / 8-bit picture files; float, integer and "
+        "quarter values), the load_image / load_charge models called directly and through whole Exposure runs (one and "
+        "several readouts, time_step / time_scale / multiplier factors), histories of rewrites with controlled "
+        "modification times (same second, later, older) through every entry point incl. load_image / load_table / "
+        "load_psf, and load_image on text files; NPY/FITS (HDU layouts, stored dtypes)/text (integer, decimal, exponent "
+        "notation, header rows)/xlsx/PNG/BMP/TIFF/3-D NPY round trips through load_image, load_table and load_datacube "
+        "are judged against 'same shape and values' (that part is testing, not proof)."),
     level_note=(
         "Trusted: Coq kernel + vm_compute; translator/c20.py; the correspondence harness and text tokeniser. Modelled, "
-        "not verified: numpy slicing/intersect1d/loadtxt, functools.lru_cache, int(a/2) as truncation. Not modelled "
-        "(round-trip tested only): np.save/np.load, astropy FITS, pandas readers, csv.Sniffer. Assumes 2-D integer-valued "
-        "inputs, local files, one process and thread."),
-    technique="Coq proof (lia index arithmetic over list models, history induction) + regenerated tables + in-Coq "
-              "correspondence/spec evaluation",
+        "not verified: numpy slicing/intersect1d/loadtxt, int(a/2) as truncation, functools.lru_cache (only when the "
+        "decorator is present). Not modelled (round-trip tested only): np.save/np.load, astropy FITS, PIL, pandas "
+        "readers, csv.Sniffer (load_table's delimiter choice). Assumes 2-D inputs with integer or quarter values, local "
+        "files, one process and thread, and that a rewritten file gets a different modification time."),
+    technique="Coq proof (lia index arithmetic over list models, history induction, token-list induction) + regenerated "
+              "tables + in-Coq correspondence/spec evaluation",
     design_ref="DESIGN.md section 6, C20",
 )
